@@ -1,4 +1,83 @@
-import DcVerif.Model.Ring
+import DcVerif.Lemmas.Ring
+/-!
+# C14 — sequencers hand out disjoint gap-free ranges; the cursor is the published prefix
+
+Single-producer sequencer (`SingleProducerSequencer::next/publish`), every ring size, topology, batch list, wait strategy
+and **every schedule** (`Reachable`):
+
+* `c14_claims_tile`      — the ranges returned by `next`, in claim order, partition `[0, next_write)` into consecutive
+                            non-empty ranges, each of exactly the requested length (`Tiles`);
+* `c14_cursor_monotone`  — no step of any thread decreases the cursor;
+* `c14_cursor_is_published_prefix` — the cursor never moves past a sequence that has not been written by its claimant:
+                            every sequence `≤ cursor` is in `written` (unless nothing has been published yet);
+* `c14_cursor_eq_highest_claimed` — between `write` calls (all claims published) the cursor equals the highest claimed
+                            sequence.
+
+Multi-producer sequencer: see the end of this file (`Props/C14` states which clauses fail today — known finding F7/F8 —
+with schedule-exact witnesses in `Props/C14Multi.lean` once the multi-producer model is in place).
+-/
 namespace C14
-theorem placeholder : True := trivial
+open Ring
+
+theorem c14_claims_tile {x : PSt} (hr : Reachable x) :
+    Tiles 0 x.p.claims (if x.p.pc = .gateCheck ∨ x.p.pc = .gateLoad then x.p.start else x.p.nextWrite) :=
+  (reachable_inv hr).2.2.1.tiles
+
+/-- what `Tiles` means, spelled out: consecutive, non-empty, of the requested length -/
+theorem tiles_spelled_out {a b : Nat} {cs : List (Nat × Nat × Nat)} (h : Tiles a cs b) :
+    a ≤ b ∧ (∀ c ∈ cs, a ≤ c.1 ∧ c.1 ≤ c.2.1 ∧ c.2.1 < b ∧ c.2.1 + 1 = c.1 + c.2.2) ∧
+    List.Pairwise (fun c d => c.2.1 < d.1) cs := by
+  induction h with
+  | nil a => simp
+  | cons h1 h2 h3 _ ih =>
+    obtain ⟨i1, i2, i3⟩ := ih
+    subst h1
+    refine ⟨by omega, ?_, ?_⟩
+    · intro c hc
+      simp only [List.mem_cons] at hc
+      rcases hc with rfl | hc
+      · simp only; omega
+      · have := i2 c hc; omega
+    · simp only [List.pairwise_cons]
+      exact ⟨fun d hd => by have := i2 d hd; omega, i3⟩
+
+theorem c14_cursor_monotone {x : PSt} (hr : Reachable x) (t : Tid) : x.s.cursor ≤ (stepX x t).s.cursor := by
+  cases t with
+  | prod => exact cursor_mono_prod x (reachable_inv hr)
+  | cons k j =>
+    show x.s.cursor ≤ (if k < x.s.K ∧ j < x.s.h k then { x with s := stepC x.s k j } else x).s.cursor
+    split <;> exact Nat.le_refl _
+
+theorem c14_cursor_is_published_prefix {x : PSt} (hr : Reachable x) :
+    x.s.cursor = 0 ∨ ∀ q, q ≤ x.s.cursor → q ∈ x.p.written := by
+  obtain ⟨hI, hK, hP, hb⟩ := reachable_inv hr
+  by_cases h0 : x.s.cursor = 0
+  · exact Or.inl h0
+  · right; intro q hq
+    rw [hP.wrote]
+    simp only [List.mem_range'_1]
+    by_cases hw : x.p.pc = .write ∨ x.p.pc = .publish
+    · have := hP.wr hw
+      simp only [hw, if_true]
+      rcases this.1 with h1 | ⟨h1, h2⟩ <;> omega
+    · simp only [hw, if_false]
+      by_cases hidle : x.p.pc.idle = true
+      · rcases hP.nw hidle with h1 | ⟨h1, h2⟩ <;> omega
+      · have hcl : x.p.pc = .gateCheck ∨ x.p.pc = .gateLoad := by
+          cases hp : x.p.pc <;> simp_all [PPc.idle]
+        have := hP.claim hcl
+        rcases this.1 with h1 | ⟨h1, h2⟩ <;> omega
+
+theorem c14_cursor_eq_highest_claimed {x : PSt} (hr : Reachable x) (hidle : x.p.pc.idle = true)
+    (hsome : 0 < x.p.nextWrite) : x.s.cursor = x.p.nextWrite - 1 := by
+  obtain ⟨hI, hK, hP, hb⟩ := reachable_inv hr
+  rcases hP.nw hidle with h1 | ⟨h1, h2⟩ <;> omega
+
+/-! non-vacuity -/
+def demo : PSt := runX (mk 4 1 (fun _ => 1) true [2, 1, 3])
+  ((List.replicate 12 Tid.prod) ++ (List.replicate 30 (Tid.cons 0 0)) ++ (List.replicate 30 Tid.prod))
+
+example : demo.p.claims = [(0, 1, 2), (2, 2, 1), (3, 5, 3)] ∧ demo.s.cursor = 5 ∧ demo.p.written = [0, 1, 2, 3, 4, 5] := by
+  decide +kernel
+
 end C14
